@@ -20,11 +20,13 @@ NoteParse(little, alignW, buf, off) ==
                      namesz == Val(h.f["n_namesz"])
                      descsz == Val(h.f["n_descsz"])
                      nameStart == h.off
-                 IN IF namesz = Huge \/ nameStart + namesz > Len(buf) THEN [ok |-> FALSE]
-                    ELSE IF align = Huge THEN [ok |-> FALSE]   \* cursor >= 12 is padded up to align >= 2^31: descriptor cannot fit
+                 IN IF namesz = Huge \/ namesz > Len(buf) \/ nameStart + namesz > Len(buf) THEN [ok |-> FALSE]
+                    \* the cursor (>= 12) is padded up to the alignment: with an alignment beyond any buffer the descriptor
+                    \* cannot fit (also keeps the arithmetic inside TLC's 32-bit integers)
+                    ELSE IF align = Huge \/ align > 16777216 THEN [ok |-> FALSE]
                     ELSE LET nameEnd == nameStart + namesz
                              descStart == PadTo(nameEnd, align)
-                         IN IF descsz = Huge \/ descStart > Len(buf) \/ descStart + descsz > Len(buf) THEN [ok |-> FALSE]
+                         IN IF descsz = Huge \/ descsz > Len(buf) \/ descStart > Len(buf) \/ descStart + descsz > Len(buf) THEN [ok |-> FALSE]
                             ELSE LET descEnd == descStart + descsz
                                      after == PadTo(descEnd, align)
                                      name == SubSeq(buf, nameStart + 1, nameEnd)
@@ -67,9 +69,9 @@ Layout(little, align, buf, pos, acc) ==
     ELSE LET namesz == Val(Word32(buf, pos, little))
              descsz == Val(Word32(buf, pos + 4, little))
              ntype  == Word32(buf, pos + 8, little)
-         IN IF namesz = Huge \/ pos + 12 + namesz > Len(buf) THEN acc
+         IN IF namesz = Huge \/ namesz > Len(buf) \/ pos + 12 + namesz > Len(buf) THEN acc
             ELSE LET descStart == RoundUp(pos + 12 + namesz, align)
-                 IN IF descsz = Huge \/ descStart > Len(buf) \/ descStart + descsz > Len(buf) THEN acc
+                 IN IF descsz = Huge \/ descsz > Len(buf) \/ descStart > Len(buf) \/ descStart + descsz > Len(buf) THEN acc
                     ELSE Layout(little, align, buf, RoundUp(descStart + descsz, align),
                                 Append(acc, [ntype |-> ntype, nameStart |-> pos + 12, namesz |-> namesz,
                                              descStart |-> descStart, descsz |-> descsz]))
@@ -78,7 +80,7 @@ Layout(little, align, buf, pos, acc) ==
 \* 16-byte descriptor; alignments below 2^31)
 IsAbiTagRec(buf, r) == SubSeq(buf, r.nameStart + 1, r.nameStart + r.namesz) = GNU /\ Val(r.ntype) = NT_GNU_ABI_TAG
 InScopeC14(little, alignW, buf) ==
-    /\ Val(alignW) # Huge /\ Val(alignW) > 0
+    /\ Val(alignW) # Huge /\ Val(alignW) > 0 /\ Val(alignW) <= 16777216
     /\ \A i \in 1..Len(Layout(little, Val(alignW), buf, 0, <<>>)) :
           LET r == Layout(little, Val(alignW), buf, 0, <<>>)[i] IN IsAbiTagRec(buf, r) => r.descsz >= 16
 DeclNotesOk(little, alignW, buf, notes) ==
